@@ -100,7 +100,7 @@ let () = iter_lines (fun line ->
               provs := (if y >= iz k.k_oh then -1 else iz (row_of_prov g (zi y) p)) :: !provs) rows) ops tr;
           Buffer.add_string b " | prov";
           List.iter (fun p -> Buffer.add_string b (Printf.sprintf " %d" p)) (List.rev !provs);
-          let hz = if !haz5 then 5 else if k.k_ctx then 0 else iz (first_hazard g a_init ops) in
+          let hz = if !haz5 then 5 else if k.k_ctx then iz (first_hazard_c g (c_init g) ops) else iz (first_hazard g a_init ops) in
           Buffer.add_string b (Printf.sprintf " | haz %d over=%d" hz (if overread g ops then 1 else 0));
           print_endline (Buffer.contents b)
         end
